@@ -129,7 +129,7 @@ def _replay_episode(case, b, res, checks, actions):
              "latent_quote_changed_price": 0, "boundary_quote": 0, "interest_nonzero": 0, "delay": case.get("delay", 0),
              "steps": 0}
     delay = case.get("delay", 0)
-    env.reset()
+    env.reset(E.fold_name(case))
     if len(tm.steps) < 2:
         return stats
     rewards = []
@@ -353,6 +353,21 @@ def check_context(res, b, led, ctx, which, j):
     nlv = led.nlv()
     if not nlv > 1e-6 * led.scale():
         return True
+    # inside one snapshot: cash + posted margins + fully-paid values == the NLV it reports
+    cash = None
+    for c, v in ctx.nr_contracts.items():
+        if type(c).__name__ == "Cash":
+            cash = float(v)
+    if cash is not None:
+        tot = cash + sum(float(v) for v in ctx.margins.values())
+        for i in range(b.n):
+            q = float(ctx.nr_contracts.get(b.contracts[i], 0.0))
+            if not b.margined[i] and q != 0:
+                tot += q * led.liq(i, q) * b.mult[i]
+        if not abs(tot - float(ctx.nlv)) <= 1e-9 * led.scale():
+            res.fail("execution %d: context_%s holds cash %.12g; cash + margins + fully-paid values = %.12g but it reports NLV %.12g" % (
+                j, which, cash, tot, float(ctx.nlv)))
+            return False
     for i in range(b.n):
         want = led.q[i] * led.liq(i) * b.mult[i] / nlv if led.q[i] != 0 else 0.0
         got = float(ctx.weights.get(b.contracts[i], 0.0))
